@@ -25,3 +25,9 @@ impl Rng {
         if self.chance(1, 2) { -m } else { m }
     }
 }
+
+/// Values that alias `v` when a u32 is narrowed or bit-packed: v + 2^j for every j that does not overflow.
+/// (Any packing or narrowing mistake accepts exactly such values; they are "boundary values" of the width.)
+pub fn alias_u32(v: u32) -> Vec<u32> {
+    (3..32).filter_map(|j| v.checked_add(1u32 << j)).collect()
+}
